@@ -318,9 +318,9 @@ class CondensedReactionGraph(MolGraph):
         for bond in self.bonds:
             bond_reaction = self._bond_attrs[bond].get("reaction", None)
             if bond_reaction == Change.FORMED:
-                rev_reac.add_broken_bond(*bond)
+                rev_reac.set_bond_attribute(*bond, "reaction", Change.BROKEN)
             elif bond_reaction == Change.BROKEN:
-                rev_reac.add_formed_bond(*bond)
+                rev_reac.set_bond_attribute(*bond, "reaction", Change.FORMED)
 
         return rev_reac
 
